@@ -198,11 +198,25 @@ SameHeaders(a, b, redact) ==
         dropCT(hs) == SelectSeq(hs, LAMBDA h : h.n # hContentType)
     IN  /\ BagEq(namesOf(oa), namesOf(ob))
         /\ IF HasCT(a) = HasCT(b) THEN BagEq(keep(oa), keep(ob)) ELSE BagEq(dropCT(keep(oa)), dropCT(keep(ob))) /\ ~HasCT(b)
-Diff(a, b, redact) == <<a.method = b.method, a.target = b.target, a.body = b.body, SameHeaders(a.headers, b.headers, redact)>>
-SameReq(a, b) == Diff(a, b, FALSE) = <<TRUE, TRUE, TRUE, TRUE>>
+(* RFC 3986 2.1 percent-decoding (a '%' not followed by two hex digits stays literal) - used only where the original request was   *)
+(* delivered by another client than requests / curl (an in-process WSGI application: werkzeug leaves ':' '@' '$' ';' unencoded in a      *)
+(* query where requests writes %3A ...): there the request-targets are compared as decoded octets                                      *)
+IsHex(c) == c \in 48..57 \/ c \in 65..70 \/ c \in 97..102
+HexVal(c) == IF c <= 57 THEN c - 48 ELSE IF c <= 70 THEN c - 55 ELSE c - 87
+PctDecode(raw) ==
+    LET st == FoldLeft(LAMBDA s, c :
+                  CASE s.k = 0 -> IF c = cPCT THEN [s EXCEPT !.k = 1] ELSE [s EXCEPT !.out = Append(@, c)]
+                    [] s.k = 1 -> IF IsHex(c) THEN [s EXCEPT !.k = 2, !.h = c] ELSE [s EXCEPT !.k = IF c = cPCT THEN 1 ELSE 0, !.out = IF c = cPCT THEN Append(@, cPCT) ELSE @ \o <<cPCT, c>>]
+                    [] OTHER   -> IF IsHex(c) THEN [s EXCEPT !.k = 0, !.out = Append(@, 16 * HexVal(s.h) + HexVal(c))]
+                                  ELSE [s EXCEPT !.k = IF c = cPCT THEN 1 ELSE 0, !.out = IF c = cPCT THEN @ \o <<cPCT, s.h>> ELSE @ \o <<cPCT, s.h, c>>],
+                  [out |-> <<>>, k |-> 0, h |-> 0], raw)
+    IN  IF st.k = 0 THEN st.out ELSE IF st.k = 1 THEN Append(st.out, cPCT) ELSE st.out \o <<cPCT, st.h>>
+SameTarget(a, b, lax) == IF lax THEN SplitFirst(a, cQM).a = SplitFirst(b, cQM).a /\ PctDecode(a) = PctDecode(b) ELSE a = b
+Diff(a, b, mode) == <<a.method = b.method, SameTarget(a.target, b.target, mode = "lax"), a.body = b.body, SameHeaders(a.headers, b.headers, mode = "redact")>>
+SameReq(a, b) == Diff(a, b, "exact") = <<TRUE, TRUE, TRUE, TRUE>>
 (* verdict for a command line against the original request *)
 AsRequest(rq) == [method |-> rq.method, target |-> rq.target, headers |-> rq.wire, body |-> rq.body]
-CmdVerdict(cmd, orig, redact) ==
+CmdVerdict(cmd, orig, mode) ==
     LET tk == Tokens(cmd)
         rq == Interp(tk.words)
     IN  IF ~tk.ok THEN [v |-> "F", why |-> "shell-unterminated-quote"]
@@ -210,7 +224,7 @@ CmdVerdict(cmd, orig, redact) ==
         ELSE IF tk.glob THEN [v |-> "U", why |-> "shell-expansion-unquoted"]
         ELSE IF ~rq.ok THEN [v |-> "F", why |-> "curl-usage"]
         ELSE IF rq.unknown THEN [v |-> "U", why |-> "curl-outside-model"]
-        ELSE LET d == Diff(AsRequest(rq), orig, redact)
+        ELSE LET d == Diff(AsRequest(rq), orig, mode)
              IN  IF d = <<TRUE, TRUE, TRUE, TRUE>> THEN [v |-> "T", why |-> ""]
                  ELSE [v |-> "F", why |-> IF ~d[1] THEN "method" ELSE IF ~d[2] THEN "url"
                                            ELSE IF ~d[3] THEN (IF rq.readsFile THEN "body-read-from-file" ELSE "body")
@@ -220,8 +234,11 @@ CmdVerdict(cmd, orig, redact) ==
 (* family: adversarial strings in the four slots *)
 Alphabet == {97, cSQ, cDQ, cBS, cDOLLAR, cBT, cSP, cNL, cAT, cSEMI, cCOLON, cAMP, cPCT}
 Strs(n) == UNION {[1..k -> Alphabet] : k \in 0..n}
+(* the same strings reaching the command through other front doors: the "Reproduce with" text of the Python API's failure message     *)
+(* (Case.validate_response), a base URL with a base path and a trailing slash, a GraphQL case, a case of an in-process WSGI app        *)
+FrontSlots == {"api-header", "api-body", "base-slash", "graphql", "wsgi"}
 BaseSlots == {"header", "query", "path", "body"}                \* adversarial string in one place
-Slots == BaseSlots \cup {"cookie", "json", "form", "auth", "multipart"}      \* cookie value, JSON string body, urlencoded form field, Authorization value, text field of a multipart/form-data body
+Slots == BaseSlots \cup {"cookie", "json", "form", "auth", "multipart"} \cup FrontSlots      \* cookie value, JSON string body, urlencoded form field, Authorization value, text field of a multipart/form-data body
 (* payloads that are empty or minimal for their media type, for every method that carries a body: the Content-Type header   *)
 (* of the original request must be reproduced although there may be nothing to pass to -d                                    *)
 EmptySlots == {"form-empty", "form-min", "text-empty", "json-object", "json-array", "json-null"}   \* {} / {k: a} as form, "" as text, {} [] null as JSON
@@ -235,9 +252,9 @@ Elements(n, lm) == {[slot |-> sl, s |-> s, m |-> "-"] : sl \in Slots, s \in Strs
                      \cup {[slot |-> sl, s |-> <<>>, m |-> mm] : sl \in EmptySlots, mm \in BodyMethods}
                      \cup {[slot |-> sl, s |-> s, m |-> "-"] : sl \in EngineSlots, s \in Strs(1)}
 (* field values: no CR / LF, no leading or trailing blanks (RFC 7230 3.2); path values are non-empty *)
-InFragment(e) == CASE e.slot \in {"header", "cookie", "auth"} \cup EngineSlots -> /\ \A i \in 1..Len(e.s) : e.s[i] # cNL
+InFragment(e) == CASE e.slot \in {"header", "cookie", "auth", "api-header"} \cup EngineSlots -> /\ \A i \in 1..Len(e.s) : e.s[i] # cNL
                                                                /\ (e.s = <<>> \/ (~IsSpace(e.s[1]) /\ ~IsSpace(e.s[Len(e.s)])))
-                   [] e.slot = "path" -> e.s # <<>>
+                   [] e.slot \in {"path", "base-slash"} -> e.s # <<>>
                    [] OTHER -> TRUE
 (* the abstract request of an element (what the driver builds for real); URL data is percent-encoded except the           *)
 (* sub-delimiters requests leaves alone, which is what puts quotes, '$', ';' and '&' into the URL word                      *)
@@ -288,11 +305,11 @@ ModelledSlots == BaseSlots \cup EmptySlots
 CmdWithoutCT(e) == LET r == ReqOf(e) IN
     wCurl \o <<cSP>> \o wX \o <<cSP>> \o r.method \o (IF r.body # <<>> THEN Opt(wD, BodyOf(e)) ELSE <<>>) \o <<cSP>> \o ShQuote(sBase \o r.target)
 DefaultCTOnlyWithData == (el.slot \in EmptySlots \/ (el.slot = "body" /\ (el.s = <<>> \/ Head(el.s) # cAT))) =>
-                            ((CmdVerdict(CmdWithoutCT(el), ReqOf(el), FALSE).v = "T") <=> (MediaOf(el) = sFormCT /\ BodyOf(el) # <<>>))
+                            ((CmdVerdict(CmdWithoutCT(el), ReqOf(el), "exact").v = "T") <=> (MediaOf(el) = sFormCT /\ BodyOf(el) # <<>>))
 QuoteRoundTrip == LET t == Tokens(<<97, cSP>> \o ShQuote(el.s)) IN t.ok /\ ~t.op /\ ~t.glob /\ t.words = <<<<97>>, el.s>>
-RefFaithful == (el.slot \in ModelledSlots /\ InFragment(el)) => CmdVerdict(RefCmd(el), ReqOf(el), FALSE).v = "T"
+RefFaithful == (el.slot \in ModelledSlots /\ InFragment(el)) => CmdVerdict(RefCmd(el), ReqOf(el), "exact").v = "T"
 NaivePitfalls == (el.slot \in ModelledSlots /\ InFragment(el)) =>
-                    ((CmdVerdict(NaiveCmd(el), ReqOf(el), FALSE).v = "T")
+                    ((CmdVerdict(NaiveCmd(el), ReqOf(el), "exact").v = "T")
                        <=> ~((el.slot = "header" /\ el.s = <<>>) \/ (el.slot = "body" /\ el.s # <<>> /\ Head(el.s) = cAT)))
 Export == PrintT(<<"CASE", ToJson([slot |-> el.slot, s |-> el.s, m |-> el.m, fragment |-> InFragment(el),
                                    ref |-> IF el.slot \in ModelledSlots THEN RefCmd(el) ELSE <<>>])>>)
